@@ -476,6 +476,10 @@ class Interp(object):
             return BUILTINS[name]
         if name in self.spec_env:
             return self.spec_env[name]
+        import builtins as _b
+        if hasattr(_b, name):
+            # a real Python builtin that pyvc does not model: out of reach, never a NameError of the code
+            raise Unsupported('builtin %s is not modelled' % name)
         raise PyExc('NameError', "name '%s' is not defined" % name)
 
     # ------------------------------------------------------------------
